@@ -187,6 +187,9 @@ func hcAccount(j map[string]any) (types.ServiceID, types.ServiceAccount) {
 		copy(k.Hash[:], vfd.Bytes(o["h"]))
 		k.Length = types.U32(hcU32(o["z"]))
 		ss := types.TimeSlotSet{}
+		if vfd.I(o["nil"]) == 1 { // an empty list as the codec leaves it: a nil slice
+			ss = nil
+		}
 		for _, s := range hcList(o["slots"]) {
 			ss = append(ss, types.TimeSlot(hcU32(s)))
 		}
@@ -268,6 +271,8 @@ type hcEnv struct {
 	// raw ("unmatched") storage key-values the driver installed: state key -> (service, storage key), so the pool can be
 	// logged by service and storage key (the state-key construction itself is C15/C17's business)
 	kvAttr map[types.StateKey][2][]byte
+	// the same for raw lookup entries: state key -> (service, hash, length)
+	kvlAttr map[types.StateKey][3][]byte
 }
 
 var regs7 uint64
@@ -288,6 +293,20 @@ func hcBuildCtx(tab string, j map[string]any) *hcEnv {
 		kvp := merklization.WrapEncodeDelta2KeyVal(types.ServiceID(hcU32(t[0])), types.ByteSequence(vfd.Bytes(t[1])), types.ByteSequence(vfd.Bytes(t[2])))
 		skv = append(skv, kvp)
 		env.kvAttr[kvp.Key] = [2][]byte{vfd.Bytes(t[0]), vfd.Bytes(t[1])}
+	}
+	env.kvlAttr = map[types.StateKey][3][]byte{}
+	for _, e := range hcList(j["kvl"]) { // [service(4), hash(32), length(4), slots]: lookup entries that live only in the raw pool
+		t := e.([]any)
+		var lk types.LookupMetaMapkey
+		copy(lk.Hash[:], vfd.Bytes(t[1]))
+		lk.Length = types.U32(hcU32(t[2]))
+		ss := types.TimeSlotSet{}
+		for _, x := range hcList(t[3]) {
+			ss = append(ss, types.TimeSlot(hcU32(x)))
+		}
+		kvp := merklization.EncodeDelta4KeyVal(types.ServiceID(hcU32(t[0])), lk, ss)
+		skv = append(skv, kvp)
+		env.kvlAttr[kvp.Key] = [3][]byte{vfd.Bytes(t[0]), vfd.Bytes(t[1]), vfd.Bytes(t[2])}
 	}
 	mode := tab
 	if len(mode) > 0 && mode[0] == 'd' {
@@ -550,11 +569,39 @@ func hcProjMachines(m IntegratedPVMMap) []any {
 	return out
 }
 
-func hcProjPool(kv *types.StateKeyVals, attr map[types.StateKey][2][]byte) []any {
+// raw lookup entries of the pool: [service, hash, length, encoded slot list], sorted
+func hcProjPoolLk(kv *types.StateKeyVals, attr map[types.StateKey][3][]byte) []any {
+	rows := [][4][]byte{}
+	if kv != nil {
+		for _, e := range *kv {
+			if a, ok := attr[e.Key]; ok {
+				rows = append(rows, [4][]byte{a[0], a[1], a[2], e.Value})
+			}
+		}
+	}
+	sort.Slice(rows, func(i, j int) bool {
+		for k := 0; k < 3; k++ {
+			if c := bytes.Compare(rows[i][k], rows[j][k]); c != 0 {
+				return c < 0
+			}
+		}
+		return false
+	})
+	out := []any{}
+	for _, r := range rows {
+		out = append(out, []any{vfd.B(r[0]), vfd.B(r[1]), vfd.B(r[2]), vfd.B(r[3])})
+	}
+	return out
+}
+
+func hcProjPool(kv *types.StateKeyVals, attr map[types.StateKey][2][]byte, lattr map[types.StateKey][3][]byte) []any {
 	type ent struct{ svc, key, val []byte }
 	es := []ent{}
 	if kv != nil {
 		for _, e := range *kv {
+			if _, isLk := lattr[e.Key]; isLk {
+				continue
+			}
 			if a, ok := attr[e.Key]; ok {
 				es = append(es, ent{a[0], a[1], e.Value})
 			} else {
@@ -575,7 +622,7 @@ func hcProjPool(kv *types.StateKeyVals, attr map[types.StateKey][2][]byte) []any
 	return out
 }
 
-func hcProjResultContext(rc *ResultContext, ts types.TimeSlot, attr map[types.StateKey][2][]byte) map[string]any {
+func hcProjResultContext(rc *ResultContext, ts types.TimeSlot, attr map[types.StateKey][2][]byte, lattr map[types.StateKey][3][]byte) map[string]any {
 	ps := rc.PartialState
 	xf := []any{}
 	for _, t := range rc.DeferredTransfers {
@@ -636,7 +683,7 @@ func hcProjResultContext(rc *ResultContext, ts types.TimeSlot, attr map[types.St
 		"self": hcLE4(uint32(rc.ServiceID)), "nextid": hcLE4(uint32(rc.ImportServiceID)), "t": hcLE4(uint32(ts)),
 		"svcs": hcProjAccounts(ps.ServiceAccounts), "xfers": xf,
 		"priv":  map[string]any{"bless": hcLE4(uint32(ps.Bless)), "assign": assign, "designate": hcLE4(uint32(ps.Designate)), "create": hcLE4(uint32(ps.CreateAcct)), "always": always},
-		"yield": yield, "prov": prov, "vk": hcFNV(vk), "aq": aq, "kv": hcProjPool(rc.StorageKeyVal, attr),
+		"yield": yield, "prov": prov, "vk": hcFNV(vk), "aq": aq, "kv": hcProjPool(rc.StorageKeyVal, attr, lattr), "kvl": hcProjPoolLk(rc.StorageKeyVal, lattr),
 		"machines": []any{}, "nexp": 0, "expd": []any{}, "expoff": 0,
 	}
 }
@@ -648,7 +695,7 @@ func (e *hcEnv) project() map[string]any {
 	}
 	switch mode {
 	case "acc":
-		return hcProjResultContext(&e.add.AccumulateArgs.ResultContextX, e.add.AccumulateArgs.Timeslot, e.kvAttr)
+		return hcProjResultContext(&e.add.AccumulateArgs.ResultContextX, e.add.AccumulateArgs.Timeslot, e.kvAttr, e.kvlAttr)
 	case "ref":
 		expd := []any{}
 		for _, s := range e.add.RefineArgs.ExportSegment {
@@ -658,14 +705,14 @@ func (e *hcEnv) project() map[string]any {
 			"self": hcLE4(uint32(e.self)), "nextid": hcLE4(0), "t": hcLE4(uint32(e.add.RefineArgs.TimeSlot)),
 			"svcs": hcProjAccounts(*e.add.GeneralArgs.ServiceAccountState), "xfers": []any{},
 			"priv":  map[string]any{"bless": hcLE4(0), "assign": []any{}, "designate": hcLE4(0), "create": hcLE4(0), "always": []any{}},
-			"yield": []int{}, "prov": []any{}, "vk": hcFNV(), "aq": []any{}, "kv": []any{},
+			"yield": []int{}, "prov": []any{}, "vk": hcFNV(), "aq": []any{}, "kv": []any{}, "kvl": []any{},
 			"machines": hcProjMachines(e.add.RefineArgs.IntegratedPVMMap), "nexp": len(e.add.RefineArgs.ExportSegment),
 			"expd": expd, "expoff": int(e.add.RefineArgs.ExportSegmentOffset),
 		}
 	}
 	return map[string]any{"self": hcLE4(0), "nextid": hcLE4(0), "t": hcLE4(0), "svcs": []any{}, "xfers": []any{},
 		"priv":  map[string]any{"bless": hcLE4(0), "assign": []any{}, "designate": hcLE4(0), "create": hcLE4(0), "always": []any{}},
-		"yield": []int{}, "prov": []any{}, "vk": hcFNV(), "aq": []any{}, "kv": []any{}, "machines": []any{}, "nexp": 0, "expd": []any{}, "expoff": 0}
+		"yield": []int{}, "prov": []any{}, "vk": hcFNV(), "aq": []any{}, "kv": []any{}, "kvl": []any{}, "machines": []any{}, "nexp": 0, "expd": []any{}, "expoff": 0}
 }
 
 // canonical projection of the checkpoint context Y (accumulate only); "" otherwise
@@ -673,7 +720,7 @@ func (e *hcEnv) projectY() []byte {
 	if e.tab != "acc" && e.tab != "dacc" {
 		return nil
 	}
-	return hcJSON(hcProjResultContext(&e.add.AccumulateArgs.ResultContextY, e.add.AccumulateArgs.Timeslot, e.kvAttr))
+	return hcJSON(hcProjResultContext(&e.add.AccumulateArgs.ResultContextY, e.add.AccumulateArgs.Timeslot, e.kvAttr, e.kvlAttr))
 }
 
 // the two general-argument views of the accumulating service against the context X
